@@ -96,11 +96,16 @@ def build(spec):
         gap = rng.choice([3600, 86400])
         grid = [start + timedelta(seconds=gap * k) for k in range(n)]
         evs = []
-        for t in grid:
+        skip = set(rng.sample(range(1, n - 1), rng.choice([0, 1, 2]))) if n > 4 else set()   # event-less timesteps
+        for gi, t in enumerate(grid):
+            if gi in skip:
+                continue
             for c in cs:
                 p = rng.uniform(40, 42)
                 evs.append(EventNBBO(t, c, p, p * 1.001))
-            if rng.random() < 0.5:
+            if rng.random() < 0.5 and (gi + 1) not in skip:
+                # (not before an event-less timestep: a slot holding only latent events makes two
+                #  decisions share a stamp, which TrackRecord rejects - DESIGN 4.2-c)
                 p = rng.uniform(40, 42)
                 evs.append(EventNBBO(t + timedelta(seconds=7), rng.choice(cs), p, p * 1.001))
     L = rng.choice([0, 10])
